@@ -93,7 +93,7 @@ type mutCase struct {
 }
 
 var hostileFields = []string{"-1", "-7", "9223372036854775807", "-9223372036854775808", "2", "255", "256", "0", "-0", "+", ".", "", "0x", "1e3", "9223372036854775808", "-9223372036854775809", "١", "NaN", "Inf", "\x00", "\xff\xfe", "##", "#", ">", "@", "1_0", " 5", "5 ", "++", "x", "1,2", ",", ";", "a b;;c", "\"", "-", "1.5"}
-var hostileLines = []string{"##gff-version", "##gff-version x", "##gff-version 3", "##gff-version 2", "##sequence-region a", "##sequence-region a 0 5", "##sequence-region a x 5", "##sequence-region a 1 y",
+var hostileLines = []string{"##Type  DNA", "##type  dna", "##Type ", "##Type   ", "##sequence-region  a 1 5", "##sequence-region a  1 5", "##DNA  x", "##gff-version  2", "##date  2012-1-01", "##source-version  x", "##  ", "##gff-version", "##gff-version x", "##gff-version 3", "##gff-version 2", "##sequence-region a", "##sequence-region a 0 5", "##sequence-region a x 5", "##sequence-region a 1 y",
 	"##sequence-region", "##DNA", "##DNA x", "##RNA", "##Protein", "##date", "##date notadate", "##date 2012-1-01", "##Type", "##Type DNA", "##", "##end-DNA", "##source-version", "##source-version x", "#", ">", "@", "+", "",
 	"\t\t\t\t\t\t\t\t", "a\tb\tc\t1\t2\t.\t+", "a\tb\tc\t1\t2\t.\t+\t.", "a\tb\tc\t0\t2\t.\t+\t.", "a\tb\tc\t1\t2\t.\t+\t.\t9x y", "a\tb\tc\t1\t2\t.\t+\t.\t\t\t\t", "c\t1", "c\t1\t2", "c\t1\t2\tn\t0\t+\t1\t2\t0\t2\t1\t0", "c\t1\t2\tn\t0\t+\t1\t2\t1,2\t1\t1\t0", "@a", "+a", ">x y", "IIII", "ACGT"}
 
@@ -175,6 +175,9 @@ func applyMuts(data []byte, muts []mut) []byte {
 			continue
 		case "space-for-tab":
 			lines[li] = strings.Replace(lines[li], "\t", " ", 1)
+		case "double-space":
+			// the first blank of the line becomes two (metaline words are separated by blanks)
+			lines[li] = strings.Replace(lines[li], " ", "  ", 1)
 		}
 		data = []byte(strings.Join(lines, "\n"))
 	}
@@ -192,7 +195,7 @@ func mod(a, n int) int {
 	return a
 }
 
-var mutOps = []string{"del-col", "dup-col", "empty-col", "hostile-col", "byte-col", "byte-col", "keep-cols", "dup-line", "del-line", "hostile-line", "set-byte", "truncate", "crlf", "space-for-tab"}
+var mutOps = []string{"del-col", "dup-col", "empty-col", "hostile-col", "byte-col", "byte-col", "keep-cols", "dup-line", "del-line", "hostile-line", "set-byte", "truncate", "crlf", "space-for-tab", "double-space"}
 
 func genMutCase(t *rapid.T) mutCase {
 	c := mutCase{Format: rapid.SampledFrom([]string{"fasta", "fastq", "bed", "gff", "gff", "bed"}).Draw(t, "format")}
